@@ -93,6 +93,11 @@ def rule_effect(fx, rep, search, cone):
             continue
         n += 1
         sinks = forward_sinks(fx, b, t["dest"]["l"])
+        if "return-value" in sinks and b.local_ty(0).endswith("search::SearchStats"):
+            # a helper that only builds the statistics record: follow the record into its callers
+            sinks = [x for x in sinks if x != "return-value"]
+            for (cb2, cbb2, ct2) in fx.callers_of(lambda nm, b=b: fx.body(nm) is not None and fx.body(nm).name == b.name):
+                sinks += forward_sinks(fx, cb2, ct2["dest"]["l"])
         badsinks = [s for s in sinks if not (s.startswith("report:") or s.startswith("stats:"))]
         good = not badsinks
         rep.obligation(good)
